@@ -1453,6 +1453,9 @@ pub fn on_client_consumed(w: &mut World, conn: usize, meta: RxMeta) {
             }
             w.conns[conn].owed_acks.push_back((7, id, Some(reason)));
         }
+        RxMeta::SecondConnAck => {
+            w.expect = Some(Expect::MaybeInvalid);
+        }
         RxMeta::PingResp => {
             if let Some(t) = w.conns[conn].pingreq_outstanding.take() {
                 w.conns[conn].pingresp_consumed_for = Some(t);
@@ -1614,7 +1617,15 @@ pub fn broker_fault(w: &mut World, conn: usize) {
         return;
     }
     let t = 0xF0000 + w.event_no;
-    match pick(w, t, 1, 8) {
+    match pick(w, t, 1, 9) {
+        8 => {
+            // a second CONNACK in the middle of the connection (protocol violation by the peer)
+            if w.conns[conn].connack_consumed && !w.raw_mode {
+                w.fault("second_connack");
+                let p = Packet::ConnAck { session_present: pick(w, t, 8, 2) == 1, reason: 0, props: vec![] };
+                send(w, conn, 0, &p, RxMeta::SecondConnAck);
+            }
+        }
         7 if w.cfg.id_burn == 0 => {
             // a second PUBREC (success or failure code) for an exchange that is already in its
             // release phase: the exchange must go on (PUBREL until PUBCOMP)
